@@ -226,6 +226,22 @@ func (g *Gen) Mirror(src T, o MirrorOpts, depth int) T {
 	return src
 }
 
+// Under resolves named types to their underlying type.
+func (g *Gen) Under(t T) T {
+	for i := 0; i < 50; i++ {
+		n, ok := t.(Named)
+		if !ok {
+			return t
+		}
+		d := g.find(n.Name)
+		if d == nil {
+			return t
+		}
+		t = d.Under
+	}
+	return t
+}
+
 func (g *Gen) find(name string) *Decl {
 	for _, d := range g.Decls {
 		if d.Name == name {
